@@ -55,6 +55,9 @@ func (c06) Exec(op string) string {
 	if len(f) < 3 {
 		return "bad-op"
 	}
+	if f[0] == "c06.tcp" {
+		return recoverStr(func() string { return execC06TCP(f) })
+	}
 	return recoverStr(func() string {
 		switch f[0] {
 		case "c06.rr":
@@ -187,6 +190,44 @@ func (c06) Gen(r *hx.Run) {
 		}
 		r.Do(fmt.Sprintf("c06.lc %s %s", strings.Join(cs, ","), strings.Join(ps, ",")), n >= 2, "lc")
 	}
+	// end to end through a real TCP processor
+	for i := 0; i < r.N(30, 400); i++ {
+		n := rng.Intn(4)
+		pol := "R"
+		if rng.Intn(3) == 0 && n > 0 {
+			pol = "L"
+		}
+		var acts []string
+		member := make([]bool, n)
+		for j := range member {
+			member[j] = true
+		}
+		for j := 0; j < 2+rng.Intn(9); j++ {
+			x := rng.Intn(12)
+			switch {
+			case x < 6 || n == 0:
+				if pol == "L" {
+					acts = append(acts, fmt.Sprintf("c%d.%d", rng.Intn(10), rng.Intn(10)))
+				} else {
+					acts = append(acts, "c")
+				}
+			case x == 6:
+				acts = append(acts, fmt.Sprintf("d%d", rng.Intn(n)))
+			case x == 7:
+				acts = append(acts, fmt.Sprintf("u%d", rng.Intn(n)))
+			case x == 8 || x == 9:
+				acts = append(acts, fmt.Sprintf("r%d", rng.Intn(n)))
+			case x == 10:
+				acts = append(acts, fmt.Sprintf("a%d", rng.Intn(n)))
+			default:
+				acts = append(acts, "k")
+			}
+		}
+		r.Do(fmt.Sprintf("c06.tcp %s %d %s", pol, n, strings.Join(acts, " ")), true, "tcp")
+	}
+	r.Do("c06.tcp L 2 d0 c0.0 c0.0 c0.0 u0 c1.1 c0.1 c0.1 c1.0", true, "tcp-dialfail")
+	r.Do("c06.tcp R 2 c c c r1 c c a1 c c", true, "tcp-remove")
+	r.Do("c06.tcp R 0 c c", true, "tcp-nohost")
 	for i := 0; i < r.N(40, 400); i++ {
 		n := 1 + rng.Intn(8)
 		g := 2 + rng.Intn(15)
